@@ -96,7 +96,7 @@ def rust(t):
     if k == "box": return "Box<%s>" % rust(t[1])
     if k == "cs": return "serde_cs::vec::CS<%s>" % key_rust(t[1])
     if k == "w": return "crate::user::W<%s>" % rust(t[1])
-    if k == "item": return "crate::generated::" + t[1].name
+    if k == "item": return "crate::generated::" + t[1].inst_name()
     raise ValueError(t)
 
 
@@ -171,8 +171,11 @@ def rust_ra(x):
 
 
 class Field:
-    def __init__(self, ident, ty, attrs=None):
+    def __init__(self, ident, ty, attrs=None, decl=None):
         self.ident, self.ty, self.attrs = ident, ty, attrs or []   # attrs: list of groups
+        # decl: how the field's type is written in a generic item (e.g. "Vec<T>"); [ty] is then the type at the
+        # instance the catalogue uses, which is what the model is given
+        self.decl = decl
 
     def flat(self):
         return [a for g in self.attrs for a in g]
@@ -255,8 +258,11 @@ class Variant:
 
 class Item:
     """kind: 'struct' | 'tuple_struct' | 'unit_struct' | 'enum' | 'union' | 'newtype_from' (container from/try_from)"""
-    def __init__(self, name, kind, attrs=None, fields=None, variants=None, generic_e=True):
+    def __init__(self, name, kind, attrs=None, fields=None, variants=None, generic_e=True, generics=None, where=None):
         self.name, self.kind = name, kind
+        # generics: [(param, bounds or None, concrete type of the catalogue's instance)]; where: text of a where clause
+        self.generics = generics or []
+        self.where = where
         self.attrs = attrs or []
         self.fields = fields or []
         self.variants = variants or []
@@ -293,6 +299,19 @@ class Item:
         return out
 
     # ---- Rust
+    def inst_name(self):
+        """the type at the instance the catalogue uses"""
+        return self.name + ("<%s>" % ", ".join(rust(g[2]) for g in self.generics) if self.generics else "")
+
+    def self_name(self):
+        """the type as written inside its own declaration"""
+        return self.name + ("<%s>" % ", ".join(g[0] for g in self.generics) if self.generics else "")
+
+    def decl_generics(self, extra=None):
+        if not self.generics:
+            return ""
+        return "<%s>" % ", ".join(g[0] + (": " + " + ".join(x for x in [g[1], extra] if x) if (g[1] or extra) else "") for g in self.generics)
+
     def rust_cattr(self, a):
         k = a[0]
         if k == "rename_all": return "rename_all = %s" % a[1]
@@ -301,7 +320,7 @@ class Item:
         if k == "deny": return "deny_unknown_fields" if a[1] is None else "deny_unknown_fields = crate::user::duf::<%d>" % a[1]
         if k == "from": return "from(%s%s) = %s_from" % ("&" if a[3] else "", rust(a[1]), self.name)
         if k == "try_from": return "try_from(%s%s) = %s_try_from -> crate::rec::UErr" % ("&" if a[3] else "", rust(a[1]), self.name)
-        if k == "validate": return "validate = crate::user::validate::<%d, %s> -> crate::rec::UErr" % (a[1], self.name)
+        if k == "validate": return "validate = crate::user::validate::<%d, %s> -> crate::rec::UErr" % (a[1], self.self_name())
         if k == "where_uerr": return "where_predicate = __Deserr_E: deserr::MergeWithError<crate::rec::UErr>"
         if k == "where_rec": return "where_predicate = __Deserr_E: deserr::MergeWithError<crate::rec::Rec<%d>>" % a[1]
         if k in ("unknown", "malformed"): return a[1]
@@ -326,7 +345,7 @@ class Item:
         for f in fields:
             for g in f.attrs:
                 lines.append("    #[deserr(%s)]" % ", ".join(rust_fattr(a) for a in g))
-            lines.append("    %s%s: %s," % (pub, f.ident, rust(f.ty)))
+            lines.append("    %s%s: %s," % (pub, f.ident, f.decl or rust(f.ty)))
         return "\n".join(lines)
 
     def out_fields(self, fields, prefix):
@@ -345,9 +364,10 @@ class Item:
             L.append("pub struct %s(pub %s);" % (self.name, inner))
             L.append("impl ToOut for %s { fn to_out(&self) -> J { self.0.to_out() } }" % self.name)
         elif self.kind == "struct":
-            L.append("pub struct %s {\n%s\n}" % (self.name, self.rust_fields(self.fields)))
-            L.append("impl ToOut for %s { fn to_out(&self) -> J { json!({\"s\": [%s]}) } }" % (
-                self.name, self.out_fields(self.fields, "self.")))
+            wh = (" where " + self.where) if self.where else ""
+            L.append("pub struct %s%s%s {\n%s\n}" % (self.name, self.decl_generics(), wh, self.rust_fields(self.fields)))
+            L.append("impl%s ToOut for %s%s { fn to_out(&self) -> J { json!({\"s\": [%s]}) } }" % (
+                self.decl_generics("ToOut"), self.self_name(), wh, self.out_fields(self.fields, "self.")))
         elif self.kind == "tuple_struct":
             L.append("pub struct %s(pub u8, pub bool);" % self.name)
         elif self.kind == "unit_struct":
@@ -371,8 +391,10 @@ class Item:
                     names = ", ".join(f.ident for f in v.fields)
                     arms.append('%s::%s { %s } => json!({"v": ["%s", [%s]]}),' % (
                         self.name, v.ident, names, v.ident, self.out_fields(v.fields, "")))
-            L.append("pub enum %s {\n%s\n}" % (self.name, "\n".join(vs)))
-            L.append("impl ToOut for %s { fn to_out(&self) -> J { match self { %s } } }" % (self.name, " ".join(arms)))
+            wh = (" where " + self.where) if self.where else ""
+            L.append("pub enum %s%s%s {\n%s\n}" % (self.name, self.decl_generics(), wh, "\n".join(vs)))
+            L.append("impl%s ToOut for %s%s { fn to_out(&self) -> J { match self { %s } } }" % (
+                self.decl_generics("ToOut"), self.self_name(), wh, " ".join(arms)))
         if conv:
             byref = conv[3]
             argt = ("&" if byref else "") + rust(conv[1])
